@@ -17,7 +17,7 @@ from ..exceptions import ExcAnalysis, Ob
 from ..mutation import Mutations, is_fresh
 from ..termination import Termination
 from ..flow import always_raises, same_expr
-from .shared import install_find_hooks, find_containers, valid_types_table
+from .shared import install_find_hooks, find_containers, valid_types_table, single_instance_gate
 
 A1 = ('Dezyne identifiers (port, event, formal names) in the parsed model are non-empty strings: guaranteed by the '
       'Dezyne grammar, not enforced by the parser')
@@ -558,9 +558,8 @@ def _rejects(ctx, ex: ExcAnalysis, abs_: Abs):
     has_guard(cde, lambda t: txt(t).count('isinstance(encapsulee') >= 2 or
               ('isinstance(encapsulee' in txt(t) and 'System' in txt(t) and 'Component' in txt(t)),
               'encapsulee that is neither system nor component')
-    has_guard(gsi, lambda t: isinstance(t, ast.UnaryOp) and 'self.items' in txt(t), 'unresolvable reference (0 matches)')
-    has_guard(gsi, lambda t: 'len(self.items)' in txt(t) and '> 1' in txt(t), 'ambiguous reference (>1 matches)')
-    has_guard(gsi, lambda t: 'isinstance(self.items[0]' in txt(t), 'declaration of the wrong kind')
+    for what, ok, msg, node in single_instance_gate(ctx):
+        run.add('C13.rejects', gsi.module.name, gsi.qualname, what, ok, msg, node=node)
     # multiclient settings
     n_mc = 0
     for s in ast.walk(cmc.node):
@@ -572,12 +571,41 @@ def _rejects(ctx, ex: ExcAnalysis, abs_: Abs):
     if n_mc < 4:
         run.violation('C13.rejects', cmc.module.name, cmc.qualname, 'check_multiclient_cfg rejections',
                       f'only {n_mc} rejections in check_multiclient_cfg (claim event, reply type, reply value, release event)')
-    # multiclient port not found: post-check in create_dzn_elements
-    post = [s for s in cde.node.body if isinstance(s, ast.If) and 'multiclient' in txt(s.test)
-            and any(isinstance(x, ast.Raise) for x in ast.walk(s))]
-    run.add('C13.rejects', cde.module.name, cde.qualname, post[0] if post else 'multiclient post-check', bool(post),
-            'a multi-client configuration that matches no port is rejected' if post else
-            'no post-check that the multi-client configuration matched a port')
+    # multiclient configuration that matches no PROVIDES port: the rejection must be decided over the provides ports only
+    def expand(e: ast.AST, depth: int = 0) -> str:
+        """Source text of e with single-definition locals of create_dzn_elements expanded."""
+        out = ast.unparse(e)
+        if depth > 3:
+            return out
+        for nm in {x.id for x in ast.walk(e) if isinstance(x, ast.Name)}:
+            defs = [a for a in iter_own_nodes(cde.node) if isinstance(a, ast.Assign) and len(a.targets) == 1
+                    and isinstance(a.targets[0], ast.Name) and a.targets[0].id == nm]
+            if len(defs) == 1:
+                out += ' <- ' + expand(defs[0].value, depth + 1)
+        return out
+
+    post = []
+    for s in ast.walk(cde.node):
+        if isinstance(s, ast.If) and always_raises(s.body) and not s.orelse:
+            conds = [s.test] + [c for c, pol in flow.path_conditions(s) if pol]
+            if not any('multiclient' in txt(c) for c in conds):
+                continue
+            r = next(x for x in ast.walk(s) if isinstance(x, ast.Raise))
+            post.append((s, conds, ex.exc_name(cde, r.exc)))
+    if not post:
+        run.add('C13.rejects', cde.module.name, cde.qualname, 'multiclient post-check', False,
+                'no check that the multi-client configuration matched a port')
+    for s, conds, exc in post:
+        full = ' && '.join(expand(c) for c in conds)
+        over_provides = 'provides' in full
+        over_requires = 'requires' in full
+        ok = ex.is_library_error(exc) and over_provides and not over_requires
+        run.add('C13.rejects', cde.module.name, cde.qualname, s, ok,
+                'a multi-client configuration that matches no provides port is rejected' if ok else
+                ('the multi-client port check is decided over data that includes the requires ports '
+                 f'(`{full[:160]}`): a configuration naming a requires port passes although no port becomes multi-client'
+                 if over_requires else
+                 f'the multi-client port check (`{full[:120]}`) is not decided over the provides ports'), node=s)
     # unknown / unassigned selection: C03 rules decide the details; here: the match call dominates port construction
     match_calls = [n for n in iter_own_nodes(cde.node) if isinstance(n, ast.Call) and isinstance(n.func, ast.Attribute)
                    and n.func.attr == 'match']
